@@ -86,6 +86,8 @@ def _schedule(tree):
     fns = find_class(tree, "Functions")
     ev = find_func(fns, "Event")
     out += _strs("eventParams", [a.arg for a in ev.args.args if a.arg != "self"], "parameters of Schedule.Event")
+    out += _strs("eventDecorators", [ast.unparse(d) for d in ev.decorator_list],
+                 "Event is a @memorable function: one state (CalendarRule) per context and argument values")
     rets = [n for n in ast.walk(ev) if isinstance(n, ast.Return)]
     if len(rets) != 1 or not isinstance(rets[0].value, ast.Call) or ast.unparse(rets[0].value.func) != "CalendarRule":
         raise PinError("Event no longer returns a single CalendarRule(...) call")
